@@ -70,6 +70,7 @@ class Exec:
         self.shape: set = set()
         self.had_continuation = False
         self.shifted = False  # an override happened on a non-empty simulator since the last clear
+        self.arrays: dict = {}  # caller-side ndarray objects that are passed in more than once
 
     # ------------------------------------------------------------------
     def _viol(self, prop: str, check: str, sig: list[str], detail: str) -> None:
@@ -207,17 +208,45 @@ class Exec:
         req = sorted(set(inside) | set(bounds))
         return {"refused": pts[-1] <= T, "intervals": intervals, "required": req, "exact": True, "end": a, "bounds": bounds}
 
+    def _points_arg(self, op: dict):  # noqa: ANN202
+        """The caller-side object handed in as time points: a fresh float array by default; an
+        int array / list / pandas Index on request; or ONE ndarray object the caller keeps and
+        passes again in later calls (op['arr'])."""
+        import pandas as pd
+
+        pts = [float(x) for x in op["points"]]
+        whole = all(float(x).is_integer() for x in pts)
+        how = op.get("as", "float_array")
+        if op.get("arr"):
+            key = op["arr"]
+            if key not in self.arrays:
+                self.arrays[key] = (np.array(pts, dtype=float), list(pts))
+            arr, orig = self.arrays[key]
+            if orig == pts:
+                self.counters["probe:caller_array_passed_again"] += 0 if arr is None else 1
+                return arr
+            return np.array(pts, dtype=float)
+        if how == "int_array" and whole:
+            return np.array([int(x) for x in pts], dtype=np.int64)
+        if how == "int_list" and whole:
+            return [int(x) for x in pts]
+        if how == "list":
+            return list(pts)
+        if how == "index":
+            return pd.Index(pts)
+        return np.array(pts, dtype=float)
+
     def _call(self, op: dict) -> None:
         sim = self.sim
         k = op["op"]
         if k == "simulate":
             sim.simulate(op["t_end"], steps=op.get("steps"))
         elif k == "time_course":
-            sim.simulate_time_course(np.array(op["points"], dtype=float))
+            sim.simulate_time_course(self._points_arg(op))
         elif k == "protocol":
             sim.simulate_protocol(_steps_to_protocol(op["steps"]), time_points_per_step=op.get("tpps", 10))
         else:
-            sim.simulate_protocol_time_course(_steps_to_protocol(op["steps"]), np.array(op["points"], dtype=float), time_points_as_relative=bool(op.get("relative")))
+            sim.simulate_protocol_time_course(_steps_to_protocol(op["steps"]), self._points_arg(op), time_points_as_relative=bool(op.get("relative")))
 
     def _segment(self, op: dict) -> None:  # noqa: C901, PLR0912, PLR0915
         ref = self.ref
@@ -462,6 +491,7 @@ class Gen:
         self.rng = rng
         self.cfg = cfg
         self.spec = spec
+        self.kept: dict = {}  # array id -> (points, relative) the simulated caller keeps around
         self.pnames = models.FAMILIES[spec["family"]][1]
         self.vnames = models.FAMILIES[spec["family"]][0]
 
@@ -486,22 +516,39 @@ class Gen:
     def op(self, kind: str, T: float) -> dict:  # noqa: C901, N803, PLR0911, PLR0912
         r = self.rng("ops")
         illegal = r.random() < self.cfg["illegal_rate"]
+        long_ok = self.cfg.get("long_jumps") and not (self.spec["family"] == "F4")
         if kind == "simulate":
             if illegal and T > 0:
                 t_end = r.choice([T, T - 0.25, T / 2, 0.0, T])
+            elif long_ok and r.random() < 0.2:
+                t_end = T + r.choice([100.0, 1000.0, 1024.0])  # a long stretch: large clock afterwards
             else:
                 t_end = T + r.choice([0.25, 0.5, 1.0, 2.0, 3.0, 0.25])
             return {"op": "simulate", "t_end": t_end, "steps": r.choice([None, 1, 2, 5, 10])}
         if kind == "time_course":
+            op: dict = {"op": "time_course"}
             if illegal and T > 0:
                 pts = _grid(r, max(0.0, T - 2.0), T, r.randint(1, 4))
+            elif T >= 100 and r.random() < 0.6:
+                # fine grid just after the time reached (1/128 is exact in binary)
+                pts = sorted({T + j / 128 for j in r.sample(range(1, 400), r.randint(1, 4))})
+            elif r.random() < 0.25:
+                # whole-number time points (handed over as ints below)
+                base = int(np.floor(T)) + 1
+                pts = [float(x) for x in sorted(r.sample(range(base, base + 6), r.randint(1, 4)))]
             else:
                 lo = r.choice([T - 1.0, T, T + 0.25, 0.0]) if T > 0 else r.choice([0.0, 0.25])
                 lo = max(0.0, lo)
                 pts = _grid(r, lo, T + r.choice([1.0, 2.0, 3.0]), r.randint(1, 6))
                 if pts[-1] <= T:
                     pts.append(T + 0.5)
-            return {"op": "time_course", "points": pts}
+            op["points"] = pts
+            x = r.random()
+            if all(float(v).is_integer() for v in pts) and x < 0.6:
+                op["as"] = r.choice(["int_array", "int_list"])
+            elif x < 0.75:
+                op["as"] = r.choice(["list", "index"])
+            return op
         if kind == "protocol":
             return {"op": "protocol", "steps": self.protocol_steps(), "tpps": r.choice([1, 2, 3, 10])}
         if kind == "protocol_tc":
@@ -516,7 +563,25 @@ class Gen:
                 pts = _grid(r, lo, base + total + r.choice([0.0, 0.0, 1.0]), r.randint(1, 6))
                 if pts[-1] + (T if rel else 0.0) <= T:
                     pts.append(pts[-1] + 0.5 + (0.0 if rel else 0.0) + (T - pts[-1] if not rel and pts[-1] < T else 0.0))
-            return {"op": "protocol_tc", "steps": steps, "points": pts, "relative": rel}
+            op = {"op": "protocol_tc", "steps": steps, "points": pts, "relative": rel}
+            if T >= 100 and r.random() < 0.7:
+                # requested points hugging a step boundary (1/128 away), at a large clock
+                acc, extra = (0.0 if rel else T), []
+                for d, _ in steps:
+                    acc += d
+                    extra += [acc - 1 / 128, acc + 1 / 128, acc - 2 / 128]
+                op["points"] = sorted(set(pts) | {e for e in extra if e > (0.0 if rel else T)})
+            if rel and r.random() < 0.35:
+                # the caller keeps ONE relative grid array and passes it to several calls
+                key = r.choice(["A", "B"])
+                if key in self.kept:
+                    op["points"] = list(self.kept[key])
+                else:
+                    self.kept[key] = list(op["points"])
+                op["arr"] = key
+            elif r.random() < 0.2:
+                op["as"] = r.choice(["list", "index"])
+            return op
         if kind == "update_parameter":
             n = r.choice(self.pnames)
             return {"op": kind, "name": n, "value": self.pval(n)}
@@ -564,6 +629,7 @@ def make_config(rng: SimRng, prop: str, tier: str, avoid: set[str]) -> dict:
         "illegal_rate": r.choice([0.1, 0.2, 0.3]),
         "integrator": r.choice(["scipy", "exact", "exact", "scipy", "exact", "exact", "scipy:RK45", "scipy:BDF"]),
         "ragged": r.random() < 0.2,
+        "long_jumps": r.random() < 0.2,
     }
 
 
